@@ -132,8 +132,37 @@ theorem C19_ids_and_tags_irrelevant (σ : Nat → Nat) (hσ : ∀ a b, σ a = σ
   · rw [h1.runningTime]; exact h2.runningTime
   · rw [h1.barrier]; exact h2.barrier
 
+/-- **C19 (a rejected registration leaves nothing behind but a used-up id).** When `add` panics -
+unknown dependency or taken name - the name map, the five stage tables and the thread-local list are
+what they were; only the id counter has advanced. Together with `C19_ids_and_tags_irrelevant` (the
+numeric values of ids do not matter): the accepted registrations are laid out the same with and
+without the rejected calls in between (what the invariance engine's "twin without the rejected calls"
+checks on the real builder). -/
+theorem C19_rejected_add_frame (b : DispatcherBuilder) (tag : SysTag) (name : String) (dep : List String)
+    (d : Decl) (h : (b.add tag name dep d).2 ≠ none) :
+    (b.add tag name dep d).1 = { b with currentId := b.currentId + 1 } := by
+  unfold DispatcherBuilder.add at h ⊢
+  simp only [] at h ⊢
+  cases hr : DispatcherBuilder.resolve b.map dep with
+  | error x => simp
+  | ok ids =>
+    simp only [hr] at h ⊢
+    by_cases hn : name = ""
+    · subst hn; simp at h
+    · simp only [ne_eq, hn, not_false_eq_true, if_true] at h ⊢
+      by_cases hl : (DispatcherBuilder.lookup b.map name).isSome = true
+      · simp [hl]
+      · simp [hl] at h
+
+/-- non-vacuity: registering `a` twice - the second call is rejected and only uses up an id -/
+example : let b0 := (({} : DispatcherBuilder).add 0 "a" [] ⟨[], [], 1⟩).1
+    (b0.add 1 "a" [] ⟨[], [], 1⟩).2 ≠ none ∧ (b0.add 1 "a" [] ⟨[], [], 1⟩).1.currentId = 2 ∧
+      (b0.add 1 "a" [] ⟨[], [], 1⟩).1.map = b0.map := by
+  decide
+
 end Shred
 
+#print axioms Shred.C19_rejected_add_frame
 #print axioms Shred.C19_insert_invariant
 #print axioms Shred.C19_layout_invariant
 #print axioms Shred.DispatcherBuilder.lookup_rename
